@@ -33,6 +33,7 @@ def bodyOfJson (j : Json) : Body :=
   match j with
   | .str "malformed" => .malformed
   | .str "array" => .array
+  | .str "toodeep" => .tooDeep
   | .str _ => .absent
   | .null => .absent
   | o => .ok (payloadOfJson o)
@@ -100,7 +101,8 @@ def bodyJson : RBody → Json
 def excJson : PyExc → Json
   | .keyError => "KeyError" | .valueError => "ValueError" | .typeError => "TypeError" | .indexError => "IndexError"
   | .attributeError => "AttributeError" | .aascv n => Json.arr #["AASCV", n] | .binasciiError => "binascii.Error"
-  | .unicodeDecodeError => "UnicodeDecodeError" | .unknownClass => "unknown"
+  | .unicodeDecodeError => "UnicodeDecodeError" | .recursionError => "RecursionError" | .xmlSyntaxError => "XMLSyntaxError"
+  | .unknownClass => "unknown"
 
 def outJson : Out → Json
   | .resp r => Json.arr #["resp", r.status, locJson r.loc, bodyJson r.body]
